@@ -152,6 +152,17 @@ CLAIMED = {
              "workers read from /proc); TLC judges each record (specs/PrivsTrace.tla).",
         design_ref="DESIGN.md 4 C20, 9",
         technique="TLA+ model of kernel credential semantics checked on the full product + TLC trace validation of real credential drops"),
+    "C13": dict(
+        text="TLC checks specs/GThread.tla (main loop of the threaded worker one action per code segment - gate, select, accept, "
+             "readable/dispatch, futures sweep, keep-alive reaper, shutdown - pool-thread start/handle/finish steps, clients, "
+             "ticks, TERM, parent death, handler crash/cancel) for threads and worker_connections in 1..3, keep-alive 0/2: "
+             "invariants ConnAccounting, NeverExceedMax, NoDoubleClose, KeepAliveNotBefore, action properties "
+             "NoCloseWhileHandled, NoPendingDroppedAtExit, liveness ServedIfThreadFree, EventuallyClosed, ReturnsToZero, "
+             "ReapedWhenExpired under fairness. TLC -simulate behaviours are replayed into the REAL ThreadWorker.run() over a "
+             "scripted selector / sockets / executor with virtual time (projected state compared after every step), plus "
+             "scripted scenarios and seeded random schedules; all runs are judged by TLC against specs/GThreadTrace.tla.",
+        design_ref="DESIGN.md 4 C13, 9",
+        technique="TLA+ model checking (safety + liveness) of the threaded worker + TLC trace validation of the real ThreadWorker.run() under scheduled interleavings"),
 }
 
 NOT_YET = {
